@@ -49,7 +49,7 @@ var families = map[string]string{
 	"oned_rt": "oned_tables", "rs": "rs_fields", "eci": "charsets", "aztec": "rs_fields",
 }
 
-var opKinds = []string{"qr_enc", "qr_rt", "qr_hint", "qr_eci", "upcean_multi", "dm_enc", "dm_rt", "oned_rt", "rs", "eci", "aztec"}
+var opKinds = []string{"qr_enc", "qr_rt", "qr_hint", "qr_eci", "qr_cut45", "upcean_multi", "dm_enc", "dm_rt", "oned_rt", "rs", "eci", "aztec"}
 
 func digestMatrix(bm *gozxing.BitMatrix) string {
 	h := fnv.New64a()
@@ -132,6 +132,45 @@ func run(op Op) string {
 			return "err:" + err.Error()
 		}
 		return digestMatrix(bm) + "|" + r.GetText()
+	case "qr_cut45":
+		// a QR symbol turned by 45 degrees whose corner opposite the top-left finder pattern is cut off
+		// by the picture border: the three finder patterns are found, the sampling grid leaves the
+		// picture (a failing path inside the grid sampler), next to ordinary detector-based reads
+		s := text(rng, 5+rng.Intn(30), "ABCDEFGH0123456789")
+		code, err := qrenc.Encoder_encode(s, qrdec.ErrorCorrectionLevel_M, nil)
+		if err != nil {
+			return "err:" + err.Error()
+		}
+		m := code.GetMatrix()
+		n := m.GetWidth()
+		sc := 4.0 + float64(rng.Intn(3))
+		diag := float64(n) * sc * 1.4143
+		w := int(diag) + 40
+		cut := 0.55 + 0.1*float64(rng.Intn(3)) // keep this share of the diamond's height
+		if rng.Intn(4) == 0 {
+			cut = 1.1 // control: the whole symbol is in the picture
+		}
+		h := int(diag*cut) + 20
+		img, _ := gozxing.NewBitMatrix(w, h)
+		cx, cy := float64(w)/2, 20+diag/2
+		for py := 0; py < h; py++ {
+			for px := 0; px < w; px++ {
+				dx, dy := float64(px)+0.5-cx, float64(py)+0.5-cy
+				// rotate back by 45 degrees
+				u := (dx+dy)*0.70710678/sc + float64(n)/2
+				v := (dy-dx)*0.70710678/sc + float64(n)/2
+				if u >= 0 && v >= 0 && int(u) < n && int(v) < n && m.Get(int(u), int(v)) == 1 {
+					img.Set(px, py)
+				}
+			}
+		}
+		yield()
+		bmp, _ := gozxing.NewBinaryBitmapFromImage(img)
+		r, derr := qrcode.NewQRCodeReader().Decode(bmp, nil)
+		if derr != nil {
+			return "err:" + derr.Error()
+		}
+		return "read:" + r.GetText()
 	case "qr_hint":
 		// byte-mode symbol without ECI (ASCII + Latin-1 bytes), decoded with a CHARACTER_SET hint resolved at decode time
 		name := caseVariant(hintNames[rng.Intn(len(hintNames))], rng.U64())
@@ -382,7 +421,7 @@ func TestCheck(t *testing.T) {
 	hx.Main(t, "C18", func(c *hx.Ctx) {
 		c.Register("concurrent", check)
 	}, func(c *hx.Ctx) {
-		c.Rapid("concurrent_workloads", c.N(25, 500), func(t *rapid.T) {
+		c.Rapid("concurrent_workloads", c.N(40, 500), func(t *rapid.T) {
 			cs := Case{Procs: rapid.SampledFrom([]int{2, 4, 8, 16}).Draw(t, "procs")}
 			k := rapid.IntRange(2, 16).Draw(t, "workers")
 			if rapid.IntRange(0, 5).Draw(t, "many") == 0 {
